@@ -343,3 +343,13 @@ Definition logs_ok (mode : Z) (maxr : Z) (j : job) (pre : list part) (p : part) 
 (* every nested operation recorded in the logs was refused *)
 Definition nested_all_refused (logs : list (list arec)) : Prop :=
   Forall (Forall (fun r => Forall (fun o => o = 0) (a_nest r))) logs.
+
+(* the property, clause by clause, for one job and its outcome: the fault-free result when every partition
+   succeeds within the budget; otherwise the exception of the first exhausting partition, raised by its
+   attempt number max_retries, with the logs described by [logs_ok]; every nested operation refused *)
+Definition job_spec (mode maxr : Z) (j : job) (o : outcome) : Prop :=
+  (all_ok maxr (j_parts j) = true -> o_res o = JOk (plain_result j)) /\
+  (forall pre p post e, j_parts j = pre ++ p :: post -> all_ok maxr pre = true -> exhausts maxr p = true ->
+     att_exc (p_nest p) (p_plan p) (Z.to_nat maxr - 1) = Some e ->
+     o_res o = JErr e (Z.of_nat (length pre)) maxr /\ logs_ok mode maxr j pre p post (o_logs o)) /\
+  nested_all_refused (o_logs o).
